@@ -1,12 +1,18 @@
 /-
 C03 — unmodified nodes reproduce their exact source bytes.
+
+Main theorems, for EVERY accepted text and every value `w` inside it that is not shadowed by a later member of the same name
+(`id` its node): `Source()`, `Marshal` and `String()` of the node are exactly the bytes of the span [w.start, w.stop) of the
+input — the span the table-free reference parser assigns to the value, without surrounding whitespace or separators
+(`C03_every_node`); for the root this is the input with the outer whitespace trimmed, so parse-then-serialise is the identity
+on untouched documents (`C03_root_trimmed`). Not proved: "parsed on its own the span gives an equal value" (covered by the
+span probe: every span of every explored document is re-parsed).
 -/
-import Ajson.Model.Decode
+import Ajson.Proofs.TreeFacts
 import Ajson.Model.Encode
-import Ajson.Spec.Ref
 
 namespace Ajson.Props.C03
-open Ajson
+open Ajson Ajson.Heap Ajson.Spec Ajson.Proofs
 
 /-- a clean, complete node with a data cell: what the decoder produces and no mutator has touched -/
 def Clean (h : Heap) (n : Id) : Prop := (h.get n).dirty = false ∧ (h.get n).b1 ≠ 0
@@ -30,6 +36,32 @@ theorem C03_string_is_source (fmtF : UInt64 → Option Bytes) (h : Heap) (n : Id
     h.toStringN fmtF n = (h, some ((h.source n).getD [])) := by
   obtain ⟨h1, h2⟩ := hc
   simp [Heap.toStringN, h1, h2]
+
+/-- **every node reproduces its span**: Source(), Marshal and String() of the node of every unshadowed value are the bytes of
+that value's span in the input, for every accepted text, every float formatter and fuel -/
+theorem C03_every_node (fmtF : UInt64 → Option Bytes) (fuel : Nat) (data : Bytes) (v : STree) (hp : parseRef data = .ok v) :
+    ∃ H, unmarshal data = .ok (H, 0) ∧ ∀ w id, SubAt v 0 w id →
+      H.source id = some (slice data w.start w.stop) ∧
+      H.marshal fmtF (fuel + 1) id = (H, .ok (slice data w.start w.stop)) ∧
+      H.toStringN fmtF id = (H, some (slice data w.start w.stop)) ∧ w.start < w.stop := by
+  obtain ⟨H, hu, hr, hw, hd⟩ := unmarshal_tree data v hp
+  refine ⟨H, hu, fun w id hs => ?_⟩
+  obtain ⟨hr', hw'⟩ := hs.rep hr hw
+  have hsrc := hr'.source hw' hd
+  obtain ⟨_, _, _, h4, h5, _, h7⟩ := hr'.node hw'
+  have hc : Clean H id := ⟨h5, by rw [h4]; omega⟩
+  refine ⟨hsrc, ?_, ?_, h7⟩
+  · rw [C03_marshal_is_source fmtF fuel H id hc, hsrc]; rfl
+  · rw [C03_string_is_source fmtF H id hc, hsrc]; rfl
+
+/-- **the root is the trimmed input**: its span starts at the first non-blank byte and only whitespace follows it, so
+`Marshal(Unmarshal(text))` is the text without its outer whitespace -/
+theorem C03_root_trimmed (fmtF : UInt64 → Option Bytes) (fuel : Nat) (data : Bytes) (v : STree) (hp : parseRef data = .ok v) :
+    ∃ H, unmarshal data = .ok (H, 0) ∧ H.marshal fmtF (fuel + 1) 0 = (H, .ok (slice data v.start v.stop)) ∧
+      v.start = (skipWs data 0).2 ∧ (skipWs (data.drop v.stop) v.stop).1 = [] := by
+  obtain ⟨H, hu, hall⟩ := C03_every_node fmtF fuel data v hp
+  obtain ⟨_, h1, h2⟩ := parseRef_wf data v hp
+  exact ⟨H, hu, (hall v 0 (SubAt.refl v 0)).2.1, h1, h2⟩
 
 /-- non-vacuity: the root of a parsed document is clean and its source is the trimmed input -/
 example : (match unmarshal " [1, 2] ".toUTF8.toList with
